@@ -63,7 +63,7 @@ type Result struct {
 	Inconclusive string         `json:"inconclusive,omitempty"`
 	Leaked       bool           `json:"leaked,omitempty"`
 	Tainted      bool           `json:"tainted,omitempty"` // process-wide state was corrupted: this worker process must not run further cases
-	Log          []string       `json:"log,omitempty"` // verbose / replay only
+	Log          []string       `json:"log,omitempty"`     // verbose / replay only
 }
 
 // Prop is one property's generator, runner and shrinker.
@@ -210,7 +210,7 @@ func Minimise(p Prop, t *testing.T, c *Case, class string, budget int) (*Case, *
 	for progress := true; progress && runs < budget; {
 		progress = false
 		cands := append(p.Shrink(best), ShrinkChoices(best)...)
-		for _, cand := range cands {
+		for ci, cand := range cands {
 			if runs >= budget {
 				break
 			}
@@ -221,6 +221,30 @@ func Minimise(p Prop, t *testing.T, c *Case, class string, budget int) (*Case, *
 				best, bestRes = cand, r
 				progress = true
 				break
+			}
+			// A structurally smaller workload shifts every later scheduling decision, so the old choice list
+			// rarely still hits the window. Give the first few structural candidates a handful of fresh
+			// schedules (derived from the seed and the attempt number only: still deterministic).
+			if ci < 12 && len(best.Choices) > 0 && string(cand.Workload) != string(best.Workload) {
+				hit := false
+				for k := 0; k < 6 && runs < budget; k++ {
+					alt := cand.Clone()
+					n := len(cand.Choices)
+					if n < 64 {
+						n = 64
+					}
+					alt.Choices = GenChoices(Rand(c.Seed*7919+int64(ci)*131+int64(k)), n, []int{20, 50, 80}[k%3])
+					r := p.Run(t, alt, false)
+					runs++
+					if r.Violation == class {
+						best, bestRes = alt, r
+						progress, hit = true, true
+						break
+					}
+				}
+				if hit {
+					break
+				}
 			}
 		}
 	}
